@@ -23,8 +23,9 @@ def _gc_tick():
 
 ID = "C15"
 RULE = ("exhaustive histories over small universes (mk: 3 keys x 2 values, tuples of length <= 2, "
-        "24 assignments + 3 deletions, depth 3; sd: 2 names x 2 strategies incl. attribute / default "
-        "manipulation, depth 3) plus random histories (length <= 40, 6 keys, 4 values, tuples with "
+        "24 assignments + 3 deletions, depth <= 3 (thorough: depth 4, and 3 values x 3 keys depth 4); "
+        "sd: 2 names x 2 strategies incl. attribute / default manipulation, 17 operations, depth <= 3 "
+        "(thorough: 4)) plus random histories (length <= 40, 6 keys, 4 values, tuples with "
         "repeats, lookups interleaved) plus a small malformed stream (empty key tuple); a case is "
         "non-trivial when at least one assignment succeeded and the final dict is non-empty or a "
         "KeyError/AttributeError was observed; distinct = distinct JSON history")
@@ -198,24 +199,23 @@ def generate(rng, tier, scale=1):
         for depth in (1, 2, 3):
             view = "all" if depth < 3 else "last"
             for h in itertools.product(ops, repeat=depth):
-                cases.append(_case("mk", [list(o) for o in h], view=view))
+                cases.append(_case("mk", list(h), view=view))
             for h in itertools.product(sops, repeat=depth):
-                cases.append(_case("sd", [list(o) for o in h], view="all"))
+                cases.append(_case("sd", list(h), view="all"))
         if not quick:
-            ops2 = _mk_ops(["a", "b"], [0, 1], 2)
-            for h in itertools.product(ops2, repeat=4):
-                cases.append(_case("mk", [list(o) for o in h], view="last"))
+            for h in itertools.product(ops, repeat=4):
+                cases.append(_case("mk", list(h), view="last"))
             ops3 = _mk_ops(MK_KEYS, [0, 1, 2], 1) + [["set", ["a", "b"], 0], ["set", ["b", "c"], 1], ["set", ["c", "a"], 2]]
             for h in itertools.product(ops3, repeat=4):
-                cases.append(_case("mk", [list(o) for o in h], view="last"))
+                cases.append(_case("mk", list(h), view="last"))
             for h in itertools.product(sops, repeat=4):
-                cases.append(_case("sd", [list(o) for o in h], view="last"))
+                cases.append(_case("sd", list(h), view="last"))
         # malformed stream: empty key tuple
         for v in (0, 1):
             cases.append(_case("mk", [["set", [], v]], "empty"))
             cases.append(_case("mk", [["set", ["a"], v], ["set", [], v]], "empty"))
             cases.append(_case("mk", [["set", [], 0], ["set", [], 1], ["set", ["a"], v]], "empty"))
-    nrand = (300 if quick else 5000) * scale
+    nrand = (1000 if quick else 8000) * scale
     for i in range(nrand):
         length = rng.choice([3, 6, 10, 20, 40])
         route = rng.choice(["plain", "plain", "ctor"])
